@@ -86,10 +86,49 @@ def load_known():
     return json.load(open(p)).get('findings', [])
 
 
+_REPLAY_CACHE = {}
+
+
+def _replay_job(job):
+    from .spec import REG
+    key, strict, oname, model = job
+    c = REG.contracts[key]
+    try:
+        return job[:3], replay_refutation(REG, c, oname, model, None, None, strict=strict)
+    except Exception as ex:
+        return job[:3], ([('<replay crashed>', dict(status='error', failed=[], detail=repr(ex)))], 0)
+
+
+def precompute_replays(results, REG, jobs):
+    """Run the (bounded, native) replay searches of all undischarged obligations in parallel."""
+    todo = []
+    for r in results:
+        c = REG.contracts[r['key']]
+        if c.concretise is None:
+            continue
+        if r['unsupported'] and not r['strict']:
+            todo.append((r['key'], r['strict'], f'{c.short}::unsupported', None))
+        for n, o in r['obligations'].items():
+            if o['verdict'] != 'proved':
+                todo.append((r['key'], r['strict'], n, o['model'] if o['verdict'] == 'refuted' else None))
+    if not todo:
+        return
+    if len(todo) == 1 or jobs <= 1:
+        out = [_replay_job(j) for j in todo]
+    else:
+        with mp.get_context('fork').Pool(min(jobs, len(todo))) as pool:
+            out = pool.map(_replay_job, todo, chunksize=1)
+    for k, v in out:
+        _REPLAY_CACHE[k] = v
+
+
 def replay_refutation(REG, c, oname, model, pid, known, strict=False):
     """Try to turn a refuted obligation into a failing concrete input of the
     real function.  Returns list of (case_desc, check_result) that violate."""
     from .native import native_check
+    ck = (next((k for k, v in REG.contracts.items() if v is c), None), strict, oname)
+    if ck in _REPLAY_CACHE:
+        return _REPLAY_CACHE[ck]
     hook = c.concretise
     fails, tried = [], 0
     if hook is None:
@@ -130,7 +169,9 @@ def run_property(pid, tier='quick', seed=0, jobs=16, verbose=False):
         print(f'checker error: no contracts registered for {pid}')
         return 3
     # longest first
-    tasks = [(k, False) for k in keys] + [(k, True) for k in keys if REG.contracts[k].domain]
+    tasks = [(k, False) for k in keys] + [
+        (k, True) for k in keys if REG.contracts[k].domain
+        and (tier == 'thorough' or REG.contracts[k].options.get('strict_tier', 'quick') == 'quick')]
     tasks.sort(key=lambda t: -REG.contracts[t[0]].options.get('weight', 1))
     jobs = min(jobs, len(tasks))
     if jobs > 1:
@@ -140,6 +181,7 @@ def run_property(pid, tier='quick', seed=0, jobs=16, verbose=False):
     else:
         results = [_verify_one(k) for k in tasks]
     ncvc5 = cvc5_second_opinion(results, 20 if tier == 'quick' else 60)
+    precompute_replays(results, REG, jobs if jobs > 1 else 1)
     extra = []
     for fn in getattr(idx, 'EXTRA_CHECKS', {}).get(pid, []):
         mod, name = fn.split(':')
